@@ -239,6 +239,9 @@ func TestC08Finality(t *testing.T) {
 				if err != nil {
 					t.Fatalf("recompute LIB: %v", err)
 				}
+				if rno > gotNo {
+					s.fail("slot %d: node %d restored LIB %d after the restart, but replaying its stored main chain from genesis justifies LIB %d/%s", j, x, gotNo, rno, rid)
+				}
 				if rno != gotNo || (rno > 0 && rid != gotID) {
 					recomputeDiffers++
 					lastDiff = fmt.Sprintf("slot %d: node %d restored LIB %d/%s, replaying its stored main chain gives LIB %d/%s", j, x, gotNo, gotID, rno, rid)
@@ -300,7 +303,7 @@ func TestC08Finality(t *testing.T) {
 		cl := []string{fmt.Sprintf("n=%d", n)}
 		if recomputeDiffers > 0 {
 			cl = append(cl, "restored-lib-differs-from-replay")
-			t.Logf("note: %s", lastDiff)
+			rec.Note("restored-vs-replay example", lastDiff+" ; history: "+strings.Join(s.hist, " | "))
 		}
 		if s.forks > 0 {
 			cl = append(cl, "fork")
